@@ -1,61 +1,62 @@
 (* C06 - Record containers differentiate identically to element-by-element records.
-   Only the property theorems (closed by `exact`), the non-vacuity example and the assumption
+   Only the property theorems (closed by `exact`), the non-vacuity examples and the assumption
    audit.  Definitions: Model/Container.v (crun: the container program as the crate runs it;
    erun: the same program performed element by element with individual Records),
-   Proofs/C06P.v (simulation through forward tangents + Proofs/TapeP.sweep_is_tangent).
+   Proofs/C06P.v (simulation through forward tangents + Proofs/TapeP.sweep_is_tangent),
+   Proofs/C06Q.v (the Record run completes; inert constants in products).
 
    C06_elementwise_equiv covers EVERY container program of the case language: declarations
    (variables / constants, tensors / matrices), all unary kinds (allocating and assign forms),
    all binary kinds in the four invocation modes (operator, binary / elementwise_*, left
    assign, right assign - every variable/constant pairing), both matrix multiplications, map /
-   map_mut with arbitrary scalar closures, from_iter (row / column major, tensor <-> matrix)
-   and from_iters::<2>.  Hypotheses visible in the statement: the closures handed to map /
-   from_iter / from_iters only mention the element and constants (`supported`: no clone of a
-   record of ANOTHER WengertList - such streams are rejected with InconsistentHistory or a panic
-   and are covered by the correspondence check); both runs complete (that the
-   element-by-element run cannot fail when the container run completes is NOT derived), and
-   the compared output element is a variable on both tapes (agreement of constant-ness is NOT
-   derived; the harness cross-checks it on every case).  Any commutative ring. *)
+   map_mut with scalar closures, from_iter of a mapped record iterator (row / column major,
+   tensor <-> matrix) and from_iters::<2>.  Whenever the container run completes, the
+   element-by-element run completes as well (derived, not assumed), every element has the
+   same value and the same constant-ness, and every derivative agrees.  The one hypothesis:
+   the closures handed to map / from_iter / from_iters only mention the element and constants
+   (`supported`: no clone of a record of ANOTHER WengertList - such streams are rejected with
+   InconsistentHistory or a panic and are covered by the correspondence check).  Any
+   commutative ring.
+   C06_constant_side_inert: binary operations AND both matrix multiplications, either side. *)
 From Coq Require Import List ZArith Bool Arith.
-From EasyML Require Import Base.Sx Model.Num Model.Tape Model.Container Proofs.TapeP Proofs.C06P.
+From EasyML Require Import Base.Sx Model.Num Model.Tape Model.Container Proofs.TapeP Proofs.C06P Proofs.C06Q.
 Import ListNotations.
 
 Theorem C06_elementwise_equiv :
   forall (R : Type) (ops : numops R),
   ring_theory (nzero ops) (none_ ops) (nadd ops) (nmul ops) (nsub ops) (nneg ops) (@eq R) ->
-  forall prog m m' ct cenv et eenv,
+  forall prog m ct cenv,
   forallb supported prog = true ->
   crun ops ([], []) 0 prog = Some (m, Ok (ct, cenv)) ->
-  erun ops ([], []) 0 prog = Some (m', Ok (et, eenv)) ->
+  exists m' et eenv,
+  erun ops ([], []) 0 prog = Some (m', Ok (et, eenv)) /\
   (forall o c e, nth_error cenv o = Some c -> nth_error eenv o = Some e ->
      c_tensor c = e_tensor e /\ c_shape c = e_shape e /\
-     map fst (c_data c) = map (@r_num R) (e_recs e)) /\
-  (forall x j o i cx ex vx p rq c e v po ro h h',
+     map fst (c_data c) = map (@r_num R) (e_recs e) /\
+     Forall (fun r => r_hist r = c_hist c) (e_recs e)) /\
+  (forall x j o i cx ex vx p rq c e v po ro h,
      is_input x j 0 prog ->
      nth_error cenv x = Some cx -> nth_error eenv x = Some ex ->
      nth_error (c_data cx) j = Some (vx, p) -> nth_error (e_recs ex) j = Some rq ->
      nth_error cenv o = Some c -> nth_error eenv o = Some e ->
      nth_error (c_data c) i = Some (v, po) -> c_hist c = Some h ->
-     nth_error (e_recs e) i = Some ro -> r_hist ro = Some h' ->
+     nth_error (e_recs e) i = Some ro ->
      nth p (sweep ops ct po) (nzero ops) = nth (r_idx rq) (sweep ops et (r_idx ro)) (nzero ops)).
-Proof. exact @elementwise_equiv. Qed.
+Proof. exact @elementwise_equiv_total. Qed.
 
-(* FULL STATEMENT aimed at (C06_constant_side_inert): with one operand constants, that operand
-   influences no derivative, for binary operations AND both matrix multiplications.
-   PROVED: for every binary operation (RecordTensor / RecordMatrix ::binary, hence the
-   operators, elementwise_multiply / _divide and the assign forms): the index stored next to a
-   constant is never read - replacing the indexes of the constants operand (on either side) by
-   arbitrary numbers changes neither the tape nor the result.  MISSING: the same for
-   record_scalar_product / the matrix multiplications (checked by the correspondence only:
-   constants x variables pairings of every product size, compared with scalar Records). *)
-Theorem C06_constant_side_inert_partial :
-  forall (R : Type) (ops : numops R) t f (x y y' : cont R),
+(* With one operand constants (history None), the index stored next to a constant is never
+   read or recorded: replacing the indexes of the constants operand - on either side - by
+   arbitrary numbers changes neither the tape nor the result, for every binary operation
+   (RecordTensor / RecordMatrix ::binary, hence the operators, elementwise_multiply / _divide and
+   the assign forms) and for both matrix multiplications (record_scalar_product appends a unary
+   entry for the variable side only).  Together with C06_elementwise_equiv (the constant side
+   is a Record::constant there) the constant side influences no derivative. *)
+Theorem C06_constant_side_inert :
+  forall (R : Type) (ops : numops R) t (x y y' : cont R),
   same_numbers y y' ->
-  c_binary ops t f x y' = c_binary ops t f x y /\
-  (c_tensor x = c_tensor y -> c_shape x = c_shape y ->
-   omap (fun p => (fst p, c_data (snd p), c_hist (snd p))) (c_binary ops t f y' x) =
-   omap (fun p => (fst p, c_data (snd p), c_hist (snd p))) (c_binary ops t f y x)).
-Proof. exact @constant_side_inert. Qed.
+  (forall f, c_binary ops t f x y' = c_binary ops t f x y /\ c_binary ops t f y' x = c_binary ops t f y x) /\
+  c_matmul ops t x y' = c_matmul ops t x y /\ c_matmul ops t y' x = c_matmul ops t y x.
+Proof. exact @constant_side_inert_all. Qed.
 
 (* non-vacuity: a 2-element variables tensor, a constants tensor, their elementwise product
    (binary), the left-assign sum with the variables, and a unary kind; both runs complete and
@@ -89,4 +90,4 @@ Proof.
 Qed.
 
 Print Assumptions C06_elementwise_equiv.
-Print Assumptions C06_constant_side_inert_partial.
+Print Assumptions C06_constant_side_inert.
